@@ -179,9 +179,28 @@ impl HttpEngine {
             3 => {
                 let inst = decode_inst(&mini_tape(rec), &self.cfg, &format!("q{}_", i));
                 let mut v = inst.to_json();
-                let what = match pick(f(rec, 1), 9) {
-                    6 | 7 => {
-                        // passes the parser, fails in the solver: the vehicle type of the first
+                // kinds 0-5 fail while the body is loaded, kinds 6-8 pass the loader and fail in the
+                // solver phase (weighted higher: a failure *after* a request took resources is the
+                // more dangerous one)
+                let kind = pick_w(f(rec, 1), &[1, 1, 1, 1, 1, 1, 3, 3, 3]);
+                let kind = if kind == 6 && !(inst.depots.is_none() && inst.locs.len() >= 2) { 8 } else { kind };
+                let what = match kind {
+                    6 => {
+                        // default depots at every location: the solver needs the dead-head row of
+                        // every location, the last one is missing
+                        v["deadHeadTrips"]["indices"].as_array_mut().unwrap().pop();
+                        v["deadHeadTrips"]["durations"].as_array_mut().unwrap().pop();
+                        v["deadHeadTrips"]["distances"].as_array_mut().unwrap().pop();
+                        for row in v["deadHeadTrips"]["durations"].as_array_mut().unwrap() {
+                            row.as_array_mut().unwrap().pop();
+                        }
+                        for row in v["deadHeadTrips"]["distances"].as_array_mut().unwrap() {
+                            row.as_array_mut().unwrap().pop();
+                        }
+                        "location missing in the dead-head matrix (default depots)"
+                    }
+                    7 => {
+                        // the vehicle type of the first departure's route cannot carry anybody; the vehicle type of the first
                         // departure's route cannot carry anybody
                         let route_id = v["departures"][0]["route"].clone();
                         let type_id = v["routes"].as_array().and_then(|rs| rs.iter().find(|r| r["id"] == route_id)).map(|r| r["vehicleType"].clone()).unwrap_or(Value::Null);
@@ -300,6 +319,11 @@ impl Engine for HttpEngine {
     }
     fn max_shrink_iters(&self) -> u32 {
         60
+    }
+    fn tolerated_inconclusive_fraction(&self) -> f64 {
+        // a request that gets no answer within 40 s (typical: 20 ms) is never a violation, but the
+        // run must not be reported as "held"
+        0.0
     }
 
     fn eval(&self, tape: &Tape) -> CaseOutcome {
